@@ -13,6 +13,7 @@ import JsonV.Lemmas.WireNumberScan
 import JsonV.Lemmas.WireString
 import JsonV.Lemmas.WireValue
 import JsonV.Lemmas.WireFuel
+import JsonV.Lemmas.WireComplete
 import JsonV.Lemmas.GlueResume
 import JsonV.Lemmas.GlueResumeStr
 import JsonV.Gen.Constants
@@ -259,13 +260,37 @@ theorem stream_sound (o : VOpts) (b : Bytes) (cnt off : Nat) (h : stream o b = (
     JStream (gopts o) maxNestingDepth (nameKey o) b :=
   JsonV.Lemmas.WireFuel.stream_sound' o b cnt off h
 
-/-- The full statements that are NOT proved.  `valid_complete_full` is the converse of `valid_sound`
-(including "`fuelFor` suffices"); `stream_iff_full` is the stream recogniser (its ⇒ half is `stream_sound`); `token_value_full` says that the
-token path (Model/TokenLoop.lean) and the value path give the same verdict.  They are validated by the
-correspondence runs (the harness compares both model paths with each other and with the code on every input). -/
-def valid_complete_full : Prop :=
-  ∀ (o : VOpts) (b : Bytes), JText (gopts o) maxNestingDepth (nameKey o) b → isValid o b = true
+/-- Completeness of the value path: every value of the grammar instance selected by the options is accepted
+at every depth it can occur, with exactly its length, whatever follows it — provided what follows is nothing or
+starts with a delimiter (blank, `,`, `]`, `}`), which only matters for numbers — and given the fuel `3·|input| + 1`. -/
+theorem value_complete (o : VOpts) (d : Nat) (v rest : Bytes) (fuel : Nat)
+    (h : JValue (gopts o) maxNestingDepth (nameKey o) d v)
+    (hrest : ∀ c t, rest = c :: t → (isWs c || c == 0x2C || c == 0x5D || c == 0x7D) = true)
+    (hf : 3 * (v ++ rest).length + 1 ≤ fuel) :
+    consumeValue o fuel (d + 1) (v ++ rest) = (v.length, .ok) :=
+  (JsonV.Lemmas.WireComplete.value_complete o d v h).1 rest fuel hrest hf
 
+/-- Completeness of `Value.IsValid`: every text `ws value ws` of the grammar instance selected by the options
+(nesting ≤ 10000; strict UTF-8 and paired surrogates unless AllowInvalidUTF8; names unique after unescaping unless
+AllowDuplicateNames) is accepted. -/
+theorem valid_complete (o : VOpts) (b : Bytes) (h : JText (gopts o) maxNestingDepth (nameKey o) b) :
+    isValid o b = true := by
+  have := JsonV.Lemmas.WireComplete.validText_complete o b h
+  simp [isValid, this]
+
+/-- **Value.IsValid accepts exactly the grammar**, for every byte string and every combination of the two options. -/
+theorem valid_iff (o : VOpts) (b : Bytes) :
+    isValid o b = true ↔ JText (gopts o) maxNestingDepth (nameKey o) b :=
+  ⟨valid_sound o b, valid_complete o b⟩
+
+-- a text of the grammar: `[1]`
+example : JText (gopts {}) maxNestingDepth (nameKey {}) [0x5B, 0x31, 0x5D] :=
+  (valid_iff {} _).1 (by decide +kernel)
+
+/-- The full statements that are NOT proved.  `stream_iff_full` is the stream recogniser (its ⇒ half is
+`stream_sound`); `token_value_full` says that the token path (Model/TokenLoop.lean) and the value path give the
+same verdict.  They are validated by the correspondence runs (the harness compares both model paths with each
+other and with the code on every input). -/
 def stream_iff_full : Prop :=
   ∀ (o : VOpts) (b : Bytes), (∃ cnt, stream o b = (cnt, b.length, .ioEOF)) ↔ JStream (gopts o) maxNestingDepth (nameKey o) b
 
